@@ -668,8 +668,9 @@ fn modelf(class: &str, what: String) -> Option<Fail> {
     Some(("model", class.to_string(), what))
 }
 fn short(s: &str) -> String {
-    if s.len() > 120 {
-        format!("{}…({} chars)", &s[..120], s.len())
+    // (cut at a character boundary: the text may hold anything the implementation returned)
+    if s.chars().count() > 120 {
+        format!("{}…({} bytes)", s.chars().take(120).collect::<String>(), s.len())
     } else {
         s.to_string()
     }
@@ -822,7 +823,14 @@ fn judge_body(kind: char, body: &[u8], after: bool, ans: &[String]) -> Option<Fa
         Ok(x) => x,
         Err(p) => return oracle(&format!("panic/decode-{}", kind), format!("decoding a text chunk panicked: {}", p)),
     };
-    // (a zero-length chunk is parsed like any other since f31d047: it is simply a body without a separator)
+    if body.is_empty() && imp == "count:(0, 0, 0)" {
+        // A decoder that does not parse chunks of length zero (before /repo f31d047: `ReadChunkData`
+        // with `remaining == 0` went straight to the CRC) skips the chunk without an error; that is
+        // outside the model's domain.  A decoder that parses them treats the empty body like any other
+        // (no NUL separator: refused), which the general comparison below covers.
+        note("model", "zero-length text chunk: never parsed");
+        return None;
+    }
     if !(imp.starts_with("ok ") || imp.starts_with("err:")) {
         return oracle(&format!("body/{}/unexpected", kind), format!("decoder answered {}", short(&imp)));
     }
